@@ -277,7 +277,7 @@ fn pattern_events() -> Vec<(String, LogEvent)> {
 ///   %[-]<digits>?<letter>({<options>})?   |   %%   |   literal text
 /// (leftmost match, a directive is preferred over an escaped percent).  This classifies the generated input
 /// ("does the pattern ask for the message?"); it is not an expectation about the output.
-fn directives(pat: &str) -> Vec<char> {
+fn directives(pat: &str) -> Vec<(char, Option<i64>)> {
   let b: Vec<char> = pat.chars().collect();
   let mut out = Vec::new();
   let mut i = 0;
@@ -296,11 +296,15 @@ fn directives(pat: &str) -> Vec<char> {
     while k < b.len() && b[k].is_ascii_digit() {
       k += 1;
     }
+    let mut pad: Option<i64> = None;
     if k > d0 {
       j = k; // padding present (sign only counts together with digits)
+      let txt: String = b[i + 1..k].iter().collect();
+      // the encoder keeps a padding only if it fits an i32
+      pad = txt.parse::<i32>().ok().map(|v| v as i64);
     }
     if j < b.len() && b[j].is_ascii_alphabetic() {
-      out.push(b[j]);
+      out.push((b[j], pad));
       j += 1;
       if j < b.len() && b[j] == '{' {
         if let Some(close) = b[j + 1..].iter().position(|c| *c == '}') {
@@ -325,7 +329,7 @@ pub fn run_pattern(a: &Args) {
   let kf = a.list("kf", "");
   let mut rng = Rng::new(a.num("seed", 1));
   let convs = ["d", "d{%Y-%m-%d}", "d{%H:%M:%S%.3f}", "p", "l", "t", "m", "T", "n", "X", "X{k1}", "X{missing}", "X{message}", "m{opt}"];
-  let mut pads: Vec<&str> = vec!["", "5", "-5", "0", "-0", "1", "-1", "40", "-40", "007", "300", "2147483648", "99999999999"];
+  let mut pads: Vec<&str> = vec!["", "5", "-5", "0", "-0", "1", "-1", "40", "-40", "007", "300", "65535", "-65536", "100000", "2147483648", "99999999999"];
   let ovf = overflow_checks_on();
   if ovf {
     // only where the negation is checked: otherwise the width becomes 2^64 - 2^31 and the process dies allocating
@@ -369,8 +373,10 @@ pub fn run_pattern(a: &Args) {
   let (mut n, mut panics) = (0u64, 0u64);
   let mut recs: Vec<Value> = Vec::new();
   for (pi, pat) in patterns.iter().enumerate() {
-    let has_m = directives(pat).contains(&'m');
-    let pad_min = pat.contains("%-2147483648");
+    let dirs = directives(pat);
+    let has_m = dirs.iter().any(|(c, _)| *c == 'm');
+    // input class: some directive (other than %n, which ignores padding) asks for a field wider than 65535 columns
+    let pad_big = dirs.iter().any(|(c, p)| *c != 'n' && p.map_or(false, |v| v.abs() > 65535));
     let fmt = std::panic::catch_unwind(|| PatternFormatter::new(pat));
     for (ei, (ename, ev)) in events.iter().enumerate() {
       // every pattern on two events, the padded single atoms on all of them
@@ -378,7 +384,7 @@ pub fn run_pattern(a: &Args) {
         continue;
       }
       n += 1;
-      let mut rec = json!({"k": "pat", "pat": pat, "ev": ename, "has_m": has_m, "pad_min": pad_min});
+      let mut rec = json!({"k": "pat", "pat": pat, "ev": ename, "has_m": has_m, "pad_big": pad_big});
       match &fmt {
         Err(_) => {
           rec["res"] = json!("panic:new");
